@@ -176,7 +176,9 @@ void harness(void) {
         if (fx->nca == 0) CHECK(x->comment_after_value == NULL, "ext: no trailing comment"); else CHECK(pieces_are(x->comment_after_value, fx->caa, fx->cal, fx->nca), "ext: trailing comment");
         /* values[]: value split at '\n', blank-trimmed; a value starting with a quote is one item */
         int n = 0; while (n < 5 && x->values[n]) n++;
-        CHECK(n == (fx->nv < 0 ? 0 : fx->nv), "ext: number of value lines");
+        /* "key=" is stored without a value (NULL): then there is no value line */
+        bool novalue = fx->nv < 0 || ((size_t)EXP[i].first < ef->length && ef->file_entry[EXP[i].first].value == NULL);
+        CHECK(n == (novalue ? 0 : fx->nv), "ext: number of value lines");
         for (int p = 0; p < MAXP; p++) {
           if (p >= fx->nv || p >= n) break;
           int a = fx->va[p], l = fx->vl[p];
